@@ -104,7 +104,7 @@ def check(spec, stats=None):
 @st.composite
 def strategy(draw):
     r = draw(run_spec(families=ALL_FAMILIES, n_max=8, jac_modes=("callable", "callable", "callable", None, "2-point", "3-point", "cs"),
-                      maxiter=(0, 30), maxfun=(1, 150), small_ls=True, ftols=(0.0, 1e-12, 1e-5), gtols=(1e-8, 1e-5, 1e-3),
+                      maxiter=(0, 30), maxfun=(1, 150), small_ls=True, units=True, ftols=(0.0, 1e-12, 1e-5), gtols=(1e-8, 1e-5, 1e-3),
                       with_scaler=True, with_ftarget=True, allow_degenerate=True))
     nr = draw(st.sampled_from([0, 0, 1, 2, 3]))
     restarts = [{"dit": draw(st.sampled_from([-2, 0, 1, 3, 10])), "dfun": draw(st.sampled_from([-5, 0, 2, 10, 100])), "maxcor": draw(st.sampled_from([None, None, 1, 4]))}
